@@ -4,6 +4,7 @@ import re
 
 from engine import kinds
 from engine.facts import Site, Slicer, norm, operand_local, control_deps, last_field
+from engine.slicing import FlowSlicer
 from rules.c01 import scheduler_impls, impl_method, WRAPPERS, DENY, HASHIT, ALLOW_HASHIT, REINIT
 
 CRATES = {"shuttle_engine", "shuttle_schedulers"}
@@ -93,6 +94,47 @@ def r2_reproducible(ctx):
     for s, t in seeds + inits:
         ok &= "call:shuttle_engine::seed_from_env" in sln.slice_operand(t["args"][0])[0]
     ctx.ob("C10.R2", "one-seed-at-construction", ok, "new_from_seed seeds both the choice RNG and the data source from the same (env-overridable) seed", loc=nfs.loc())
+    reseed_returns_installed(ctx, "C10.R2")
+
+
+def reseed_returns_installed(ctx, rule):
+    """The seed a data source reports for an execution is the seed its generator was (re)started from — on every path: a replay
+    started from the reported seed begins at seed_from_u64(seed), so an iteration that kept the previous generator state would
+    hand out other data than its replay."""
+    prog = ctx.prog
+    RD = "shuttle_engine::scheduler::data::random::RandomDataSource"
+    b = ctx.body("<" + RD + " as shuttle_engine::scheduler::data::DataSource>::reinitialize", rule)
+    fs = FlowSlicer(b, control=False)
+    writes = []
+    for s in b.sites():
+        st = b.at(s)
+        if st.get("k") in ("assign", "call") and st.get("dst") and last_field(st["dst"]) == RD + ".rng":
+            ops = st["args"] if st.get("k") == "call" else st["rv"].get("ops", [])
+            labs = set()
+            for o in ops:
+                labs |= fs.operand_labels(o, s)
+            if st.get("k") == "call" and any(c.endswith("seed_from_u64") for c in b.callees_of_call(st, passed=False)) or any(l.endswith("seed_from_u64") for l in labs):
+                writes.append(s)
+    ws = set(writes)
+    w = b.path_exists(None, b.is_return, lambda x: x in ws)
+    ctx.ob(rule, "reseed-on-every-path", bool(writes) and w is None,
+           "RandomDataSource::reinitialize restarts its generator with seed_from_u64 on every path to its return" if (writes and w is None) else
+           "RandomDataSource::reinitialize can return a seed without restarting the generator from it: the iteration's data would not be the data "
+           "that a replay of the reported seed draws", loc=b.loc())
+    # ... and the value returned is the value the generator was restarted from
+    ret_labs = set()
+    for s, st in b.assigns():
+        if st["dst"]["l"] == 0 and not st["dst"].get("p") and st["rv"].get("ops"):
+            ret_labs |= fs.operand_labels(st["rv"]["ops"][0], s)
+    same = False
+    for s in writes:
+        st = b.at(s)
+        ops = st["args"] if st.get("k") == "call" else st["rv"].get("ops", [])
+        wl = set()
+        for o in ops:
+            wl |= fs.operand_labels(o, s)
+        same |= bool({l for l in wl if l.startswith(("field:", "call:")) and not l.endswith("seed_from_u64")} & ret_labs) or not wl
+    ctx.ob(rule, "returned-seed-is-installed-seed", same, "the seed returned by reinitialize is the value passed to seed_from_u64", loc=b.loc())
 
 
 def r3_unbiased(ctx):
